@@ -99,4 +99,11 @@ structure Inst where
 def Inst.env (I : Inst) : Env LName :=
   ⟨lvsAllowed I.model I.fns, I.crypto, I.world, I.anchorName, I.anchorKey⟩
 
+/-- the instance placed in front of the network `w` (its own `world` field is the network it was described with) -/
+def Inst.at (I : Inst) (w : World LName) : Inst := { I with world := w }
+
+/-- the instance without its network, holding the storage object `r` (model with `world` events, `Cascade.runD`) -/
+def Inst.cfg (I : Inst) (r : StoreRef) : Cfg LName :=
+  ⟨lvsAllowed I.model I.fns, I.crypto, I.anchorName, I.anchorKey, r⟩
+
 end Ndn.Cascade
